@@ -12,6 +12,6 @@ Definition sm_pinned_defined (n : Z) (o : Qc) : bool := sm_defined n o.
 
 Extraction "model_bounds.ml"
   Q2Qc this
-  upper_power_of_two sizes_list bucket_numbers pad_list pad_ok pad_max_last
+  upper_power_of_two sizes_list sizes_pinned_list fp_guard bucket_numbers pad_list pad_ok pad_max_last
   fp_events_list fp_table fp_all_ok fp_access_ok
   f2u_code kick_src_code sm_index_code sm_pinned_defined imp_sum_reads imp_sum_ok track_ok fptrack1_row conv_code.
